@@ -320,6 +320,46 @@ def rule_rs(ctx):
                            % A.short(recv))
 
 
+def rule_rf(ctx):
+    """`rng = np.random if rng is None else rng`: the global module is chosen only when no generator was given"""
+    rep = ctx.report
+    n = 0
+    for mod in ctx.repo.modules.values():
+        if mod.name != 'core':
+            continue
+        for x in ast.walk(mod.tree):
+            if isinstance(x, ast.IfExp):
+                g_body = _resolves_to_global_random(mod, x.body)
+                g_else = _resolves_to_global_random(mod, x.orelse)
+                if not (g_body or g_else):
+                    continue
+                n += 1
+                t, neg = A.strip_not(x.test)
+                ok = False
+                if isinstance(t, ast.Compare) and len(t.ops) == 1 and A.is_const(t.comparators[0], None) and isinstance(t.left, ast.Name):
+                    is_none = isinstance(t.ops[0], ast.Is) != neg
+                    chosen_when_none = x.body if is_none else x.orelse
+                    other = x.orelse if is_none else x.body
+                    ok = _resolves_to_global_random(mod, chosen_when_none) is not None and A.is_name(other, t.left.id)
+                fn = A.enclosing_function(x)
+                rep.ob('RS', K.key(ctx.repo.qualname_of(fn) if fn else mod.name, None, 'global-generator-only-as-fallback'), ok, x,
+                       '' if ok else 'the global numpy random module replaces the generator that was passed in (`%s`): explicit '
+                       'seeds are ignored' % A.short(x))
+            elif isinstance(x, ast.If):
+                t, neg = A.strip_not(x.test)
+                if isinstance(t, ast.Compare) and len(t.ops) == 1 and A.is_const(t.comparators[0], None) and isinstance(t.left, ast.Name) \
+                        and 'rng' in t.left.id:
+                    is_none = isinstance(t.ops[0], ast.Is) != neg
+                    arm = x.body if is_none else x.orelse
+                    other = x.orelse if is_none else x.body
+                    bad = [s for s in other if isinstance(s, ast.Assign) and _resolves_to_global_random(mod, s.value)]
+                    if any(isinstance(s, ast.Assign) and _resolves_to_global_random(mod, s.value) for s in arm + other):
+                        n += 1
+                        rep.ob('RS', K.key(ctx.repo.qualname_of(A.enclosing_function(x)), None, 'global-generator-only-as-fallback'),
+                               not bad, x, '' if not bad else 'the global generator is assigned although one was given')
+    rep.floor('fallbacks to the global generator', n, 1)
+
+
 def rule_rt(ctx):
     """rng threading: a factory that holds a generator passes it to every constructor /
     factory it calls that accepts one"""
@@ -474,6 +514,7 @@ def run(ctx):
     rule_cc(ctx)
     rule_fz(ctx)
     rule_rs(ctx)
+    rule_rf(ctx)
     rule_rt(ctx)
     rule_or(ctx)
     rule_pf(ctx)
